@@ -387,15 +387,24 @@ class AsyncRun:
             side['event'] = {'expect': self.expect.get('event'), 'handler_runs': [(c[1], c[2]) for c in self.ev_calls],
                              'acks': acks}
         conn_info = {}
+        n_causes_ = len(cfg['causes'])
         if self.conn_idx is not None:
             decided = [k for k, e in enumerate(self.events) if e[0] == self.conn_idx and e[1] == 'chandler']
             d = decided[0] if decided else len(self.events)
             hk = [k for k, e in enumerate(self.events)
                   if e[1] == 'handler' and e[2] == '/' and e[4] == self.sids[0]]
+            # a terminating cause "passes the gate" when its is_connected() test of the session succeeds
+            gk = [k for k, e in enumerate(self.events)
+                  if e[1] == 'check' and e[2] == '/' and e[3] is True and e[4] == self.sids[0]
+                  and e[0] is not None and e[0] < n_causes_]
+            lost_done_before_handler = (
+                not any(c[0] == self.conn_idx for c in self.connects) and 'lost' in cfg['causes'])
             conn_info = {'outcome': self.conn_outcome, 'always_connect': self.always, 'idx': self.conn_idx,
-                         'disconnect_calls_before_decision': sum(1 for k in hk if k < d),
-                         'disconnect_calls_after_decision': sum(1 for k in hk if k > d),
+                         'gates_before_decision': sum(1 for k in gk if k < d),
+                         'gates_after_decision': sum(1 for k in gk if k > d),
+                         'disconnect_calls': len(hk),
                          'connect_handler_runs': sum(1 for c in self.connects if c[0] == self.conn_idx),
+                         'lost_before_connect_handler': lost_done_before_handler,
                          'answers': answers, 'refusal_disconnects': refusal_disc}
         obs = {
             'causes': list(cfg['causes']), 'mode': cfg['mode'], 'others': bool(cfg.get('others')),
@@ -571,9 +580,12 @@ def refusal_args(outcome):
 
 
 def conn_oracle(obs, ci):
-    """the CONNECT under observation: answered exactly once as its handler decided; a REFUSED connection
-    never gets a disconnect handler after the refusal, and at most the one a cause triggered while the
-    connect handler had not answered yet"""
+    """the CONNECT under observation: its connect handler runs once, it is answered exactly once as the handler
+    decided.  A REFUSED connection: no terminating cause passes the is_connected gate once the handler has
+    refused (the application is never told about the end of a connection it has refused), at most one passed it
+    while the handler had not answered yet (then that cause ends the session: its disconnect handler runs once and
+    the refusal need not be sent any more), and the disconnect handler ran exactly as often as a cause passed the
+    gate."""
     fails = []
     lost = 'lost' in obs['causes']
     n0 = [t for t, d in ci['answers'] if t == 0]
@@ -586,35 +598,40 @@ def conn_oracle(obs, ci):
             fails.append('accepted CONNECT answered by CONNECT x%d, CONNECT_ERROR %r, refusing DISCONNECT %r' % (len(n0), n4, rd))
         return fails
     want = refusal_args(ci['outcome'])
-    if ci['disconnect_calls_after_decision']:
-        fails.append('disconnect handler ran %d times for a connection AFTER its connect handler had refused it'
-                     % ci['disconnect_calls_after_decision'])
-    if ci['disconnect_calls_before_decision'] > 1:
-        fails.append('disconnect handler ran %d times before the connect handler answered' % ci['disconnect_calls_before_decision'])
+    gb, ga = ci['gates_before_decision'], ci['gates_after_decision']
+    if ga:
+        fails.append('%d terminating cause(s) found a connection still connected AFTER its connect handler had refused it '
+                     '(disconnect handler runs for a refused connection)' % ga)
+    if gb > 1:
+        fails.append('%d causes passed the gate before the connect handler answered' % gb)
+    if ci['disconnect_calls'] != gb + ga:
+        fails.append('disconnect handler ran %d times for the refused connection, %d causes passed the gate'
+                     % (ci['disconnect_calls'], gb + ga))
+    # the refusal must be sent unless the session was already ended by a cause (or the transport is gone)
+    need = 0 if (lost or gb) else 1
     if ci['always_connect']:
         if len(n0) > 1 or n4 or len(rd) > 1 or any(not C.same(d, want) for d in rd) or \
-                ((len(n0) != 1 or len(rd) != 1) and not lost):
+                (len(n0) != 1 and not lost) or len(rd) < need:
             fails.append(REFUSAL_UNANSWERED % ('CONNECT then DISCONNECT %r' % (want,), len(n0), n4, rd))
     else:
-        if n0 or rd or len(n4) > 1 or any(not C.same(d, want) for d in n4) or (len(n4) != 1 and not lost):
+        if n0 or rd or len(n4) > 1 or any(not C.same(d, want) for d in n4) or len(n4) < need:
             fails.append(REFUSAL_UNANSWERED % ('CONNECT_ERROR %r' % (want,), len(n0), n4, rd))
     return fails
 
 
 REFUSAL_UNANSWERED = 'refused CONNECT must be answered by exactly one %s: got CONNECT x%d, CONNECT_ERROR %r, refusing DISCONNECT %r'
-KNOWN_REFUSAL = 'refusal-after-concurrent-disconnect'
+KNOWN_LOSS_BEFORE_HANDLER = 'always-connect-loss-before-connect-handler'
 
 
-def known_refusal_region(obs, fails):
-    """always_connect=True, a cause passed the gate while the connect handler had not answered yet, then the
-    handler refuses: `_handle_connect` calls pre_disconnect for a session that is already being / has been
-    disconnected -> KeyError (nothing answered) or a second pending mark that is never removed."""
+def known_loss_before_handler(obs, fails):
+    """always_connect=True: the transport is lost while the CONNECT packet (sent BEFORE the connect handler under
+    always_connect) is suspended in the send: `self.environ[eio_sid]` then raises KeyError (contained by Engine.IO),
+    the connect handler never runs although the disconnect handler already ran for that session id."""
     ci = obs.get('conn_info') or {}
-    if not (ci and ci['always_connect'] and ci['outcome'] in ('false', 'refuse')
-            and ci['disconnect_calls_before_decision'] >= 1):
+    if not (ci and ci['always_connect'] and ci.get('lost_before_connect_handler')):
         return False
-    allowed = ('sid of ns 0 is still pending afterwards', 'task %r raised KeyError' % ci['idx'])
-    return all(f in allowed or f.startswith('refused CONNECT must be answered') for f in fails)
+    allowed = ('connect handler ran 0 times for one CONNECT', 'task %r raised KeyError' % ci['idx'])
+    return bool(fails) and all(f in allowed for f in fails)
 
 
 PC_OF_EVENT = {'check': 'check', 'send': 'send', 'handler': 'handler', 'cleanup': 'cleanup', 'chandler': 'chandler'}
@@ -678,7 +695,16 @@ def run_async_schedules(ctx):
     def judge(cfg, obs, m):
         stats['runs'] += 1
         fails = oracle(obs)
-        diffs = correspondence(obs, m)
+        refusal = (obs.get('conn_info') or {}).get('outcome') in ('false', 'refuse')
+        # (the model has no refusing CONNECT task yet: those schedules are judged by the oracle alone)
+        diffs = [] if (refusal or m is None) else correspondence(obs, m)
+        if m is None:
+            m = {'calls': [], 'raised': [], 'contained': 0, 'residue': [], 'pcs': []}
+        if fails and known_loss_before_handler(obs, fails):
+            stats['known_loss_before_handler'] = stats.get('known_loss_before_handler', 0) + 1
+            if 'known_loss_sample' not in stats:
+                stats['known_loss_sample'] = {'cfg': cfg, 'sched': obs['sched'], 'oracle': fails}
+            return
         rep = {'kernel': 'sched_async', 'cfg': cfg, 'sched': obs['sched'], 'model_sched': obs['msched'],
                'observed': {k: obs[k] for k in ('calls', 'raised', 'swallowed', 'residue', 'connected', 'rooms',
                                                 'disc_packets', 'gate_atomic', 'unfinished', 'side', 'new_session')},
@@ -703,9 +729,14 @@ def run_async_schedules(ctx):
                 obs_all = list(explore(cfg))
             else:
                 obs_all = [random_schedule(cfg, ctx.rng) for _ in range(sample)]
-            ans = C.batch('sched', [model_line(o) for o in obs_all])
+            if cfg.get('conn') in ('false', 'refuse'):
+                ans = [None] * len(obs_all)
+            else:
+                ans = C.batch('sched', [model_line(o) for o in obs_all])
             key = '+'.join(cfg['causes']) + '/' + cfg['mode'] + ('/shared-ns' if cfg['others'] else '') + \
                 ('/conn-suspended' if cfg.get('conn') else '') + \
+                ('-' + str(cfg['conn']) if cfg.get('conn') in ('false', 'refuse') else '') + \
+                ('/always_connect' if cfg.get('always') else '') + \
                 ('/side:' + '+'.join(cfg['side']) if cfg.get('side') else '') + ('/sampled' if sample else '')
             stats['per_config'][key] = len(obs_all)
             ctx.count('sched_causes:' + '+'.join(cfg['causes']), len(obs_all))
@@ -745,6 +776,26 @@ def run_async_schedules(ctx):
                   if cs != ['client', 'api', 'lost']], sample=30)
         run_cfgs([{'causes': cs, 'mode': 'both', 'others': False, 'conn': True} for cs in cause_sets(2)
                   if len(cs) == 2], sample=25)
+    # a CONNECT whose handler REFUSES (returns False / raises ConnectionRefusedError) while terminating causes for the
+    # session it registered arrive: before the decision, after it, during the send of the refusal; both always_connect
+    refusing = [{'causes': cs, 'mode': 'both', 'others': o, 'conn': co, 'always': al}
+                for al in (False, True) for co in ('false', 'refuse') for o in (False, True)
+                for cs in cause_sets(1)]
+    run_cfgs(refusing)
+    run_cfgs([{'causes': cs, 'mode': 'both', 'others': False, 'conn': True, 'always': True} for cs in cause_sets(1)])
+    pairs = [{'causes': cs, 'mode': 'both', 'others': False, 'conn': co, 'always': al}
+             for al in (False, True) for co in ('false', 'refuse') for cs in cause_sets(2) if len(cs) == 2]
+    if ctx.thorough:
+        run_cfgs(pairs)
+    else:
+        run_cfgs(pairs, sample=12)
+    stats['refusal_runs'] = sum(v for k, v in stats['per_config'].items() if '-false' in k or '-refuse' in k)
+    if stats.get('known_loss_before_handler'):
+        smp = stats['known_loss_sample']
+        ctx.known(KNOWN_LOSS_BEFORE_HANDLER, 'AsyncServer(always_connect=True): %d schedules in which the transport is lost '
+                  'while the CONNECT packet is suspended in the send, before the connect handler is invoked: %s; e.g. %s schedule %s'
+                  % (stats['known_loss_before_handler'], smp['oracle'], smp['cfg'], smp['sched']))
+    cov['sched_refused_connect_schedules'] = stats['refusal_runs']
     cov['sched_evaluations'] = stats['runs']
     cov['sched_exhaustive'] = True
     cov['sched_exhaustive_scope'] = (
